@@ -1,4 +1,5 @@
 import Skc.Lemmas.PenH
+import Skc.Lemmas.PenSpec
 import Mathlib.Data.List.Nodup
 import Mathlib.Data.List.Perm.Basic
 
@@ -74,6 +75,35 @@ theorem affected_columns_optimal (sav : List α) (alpha : α) (betas : List α)
     have hsplit := List.take_append_drop (k + 1) (orderDesc sav)
     rw [← hsplit] at hpw
     exact (List.pairwise_append.1 hpw).2.2 e he e' he'drop
+
+/-- **C16 (optimal subset)**: the savings of the affected columns are a selection of the anomaly's
+    savings whose value — summed savings minus the sparse penalty for that many components minus the
+    constant penalty — is the maximum over *all* non-empty selections of columns (not only over
+    prefixes of the sorted order), and equals the penalised saving of the general branch. -/
+theorem affected_columns_best_subset (sav : List α) (alpha : α) (betas : List α)
+    (hlen : betas.length = sav.length) (hp : sav ≠ []) :
+    let J := (findAffected sav alpha betas).map (fun c => sav.getD c 0)
+    J.Subperm sav ∧ J ≠ [] ∧ selVal alpha betas J = (penGeneral sav alpha betas).2 ∧
+      ∀ J', J'.Subperm sav → J' ≠ [] → selVal alpha betas J' ≤ selVal alpha betas J := by
+  intro J
+  obtain ⟨hk, hval, _⟩ := penGeneral_spec sav alpha betas hlen hp
+  set k := (penGeneral sav alpha betas).1
+  have hJ : J = ((orderDesc sav).map (·.2)).take (k + 1) := by
+    simp only [J, findAffected, List.map_map, ← List.map_take]
+    apply List.map_congr_left
+    intro e he
+    exact orderDesc_entry sav e (List.mem_of_mem_take he)
+  have hl : J.length = k + 1 := by
+    rw [hJ]; simp [orderDesc_length]; omega
+  have hsel : selVal alpha betas J = (penGeneral sav alpha betas).2 := by
+    rw [hval]; simp only [selVal, prefVal, hl]; rw [hJ]
+  refine ⟨?_, ?_, hsel, ?_⟩
+  · rw [hJ]
+    exact ((List.take_sublist _ _).subperm).trans (orderDesc_vals_perm sav).subperm
+  · intro h; rw [h] at hl; simp at hl
+  · intro J' hJ' hne
+    rw [hsel]
+    exact penGeneral_ge_subset sav alpha betas hlen J' hJ' hne
 
 /-- non-vacuity: the hypotheses are satisfiable (savings 5, 1, 9 with penalties 1, 2, 3; the driver
     evaluates `findAffected [5, 1, 9] 0 [1, 2, 3] = [2, 0]` — `mergeSort` does not reduce in the
